@@ -321,7 +321,7 @@ Qed.
 Lemma nc_remove_at_ok c j w : wfw w -> holds w (nids c) -> j < length (citems c) ->
   exists c' w', nc_remove_at c j w = Ok (c', w') /\
      trans w w' (nids c) (nids c') (nblks c) (nblks c') /\ ckind c' = ckind c /\
-     nabs w' c' = remove_at j (nabs w c).
+     nabs w' c' = remove_at j (nabs w c) /\ citems c' = remove_at j (citems c).
 Proof.
   intros W H L. unfold nc_remove_at. destruct (nth_error_lt _ _ L) as (n & N). rewrite N.
   pose proof (holds_nids_items _ _ H) as Hi.
@@ -332,7 +332,7 @@ Proof.
   assert (Q : meq (nids c) (rev (node_ids (ckind c) n) ++ nids (set_items c (remove_at j (citems c)) (S (cfree c))))).
   { intro x. unfold nids, set_items. cbn [csent citems ckind]. autorewrite with cntdb.
     pose proof (cnt_items_remove (ckind c) _ _ _ x N). lia. }
-  split; [|split; [reflexivity|]].
+  split; [|split; [reflexivity|split; [|reflexivity]]].
   - eapply trans_perm; [apply (trans_frame _ _ _ _ _ _ (nids (set_items c (remove_at j (citems c)) (S (cfree c)))) (nblks c) T) | | | |]; msolve.
   - unfold nabs. cbn [set_items ckind citems]. rewrite <- map_remove_at.
     assert (Sub : mle (items_ids (ckind c) (remove_at j (citems c))) (items_ids (ckind c) (citems c))).
@@ -359,7 +359,9 @@ Proof.
   assert (Ek : map (val w) (sel_ids (ckind c) (citems c)) = asel (ckind c) (nabs w c)).
   { unfold nabs. apply sel_vals. auto. }
   rewrite Ek. destruct (find_idx (val w kr) (asel (ckind c) (nabs w c))) as [j|] eqn:F.
-  - apply nc_remove_at_ok; auto. apply find_idx_lt in F. unfold asel, nabs in F. rewrite !map_length in F. exact F.
+  - destruct (nc_remove_at_ok c j w W H) as (c' & w' & E & T & K & A & _).
+    { apply find_idx_lt in F. unfold asel, nabs in F. rewrite !map_length in F. exact F. }
+    exists c', w'. auto.
   - exists c, w. split; [reflexivity|]. split; [apply trans_refl; auto|]. auto.
 Qed.
 
@@ -502,4 +504,210 @@ Proof.
     + rewrite <- KO. apply holds_nids_items. eapply holds_app_r; eauto.
     + intros i I J. eapply (holds_disjoint _ _ _ _ W H); [|exact J].
       unfold nids. apply in_or_app. right. rewrite KO. exact I.
+Qed.
+
+(* ---- the argument is the container itself ---- *)
+Lemma find_idx_nodup l : forall j z, NoDup l -> nth_error l j = Some z -> find_idx z l = Some j.
+Proof.
+  induction l as [|h t IH]; intros [|j] z ND N; cbn [nth_error] in N; try discriminate; cbn [find_idx].
+  - inversion N. subst. rewrite Z.eqb_refl. reflexivity.
+  - inversion ND as [|? ? NI ND']; subst.
+    destruct (Z.eqb_spec h z) as [->|Q].
+    + exfalso. apply NI. eapply nth_error_In; eauto.
+    + rewrite (IH j z ND' N). reflexivity.
+Qed.
+
+Lemma unique_has_key k : unique k = true -> has_key k = true.
+Proof. destruct k; cbn; auto. Qed.
+
+Lemma nabs_val_ext w w' c : (forall i, val w' i = val w i) -> nabs w' c = nabs w c.
+Proof. intros V. unfold nabs. apply map_ext. intros n. apply abs_node_keep. auto. Qed.
+
+Lemma nc_insert_found c p n j w : wfw w -> holds w (nids c) -> unique (ckind c) = true ->
+  NoDup (asel (ckind c) (nabs w c)) -> nth_error (citems c) j = Some n ->
+  exists w', nc_insert c p (nk n) (VRef (nv n)) w = Ok (c, w') /\
+             trans w w' (nids c) (nids c) (nblks c) (nblks c) /\ (forall i, val w' i = val w i).
+Proof.
+  intros W H UQ ND N. unfold nc_insert. set (k := ckind c) in *.
+  pose proof (unique_has_key k UQ) as HK. rewrite HK, UQ.
+  pose proof (holds_nids_items _ _ H) as Hi. fold k in Hi.
+  assert (In_n : In n (citems c)) by (eapply nth_error_In; eauto).
+  assert (Ik : In (nk n) (dom (heap w))).
+  { eapply holds_in; [exact Hi|]. eapply items_ids_in; [exact In_n | apply node_ids_key; auto]. }
+  run (rd_ok w (nk n) Ik).
+  assert (Lsel : forall i, In i (sel_ids k (citems c)) -> In i (dom (heap w))).
+  { intros i I. eapply holds_in; [exact Hi|]. apply sel_ids_in; auto. rewrite HK. reflexivity. }
+  run (rd_list_ok w _ Lsel).
+  assert (Ek : map (val w) (sel_ids k (citems c)) = asel k (nabs w c)).
+  { unfold nabs. fold k. apply sel_vals. rewrite HK. reflexivity. }
+  rewrite Ek.
+  assert (Nk : nth_error (asel k (nabs w c)) j = Some (val w (nk n))).
+  { rewrite <- Ek. unfold sel_ids. rewrite map_map. rewrite (map_nth_error _ _ _ N). rewrite HK. reflexivity. }
+  rewrite (find_idx_nodup _ _ _ ND Nk).
+  destruct (dup_assign k) eqn:DA.
+  - rewrite N. destruct (dup_assign_fields k DA) as (_ & HV & _).
+    assert (Iv : In (nv n) (dom (heap w))).
+    { eapply holds_in; [exact Hi|]. eapply items_ids_in; [exact In_n | apply node_ids_val; auto]. }
+    destruct (assign_ok w (nv n) (nv n) W Iv Iv) as (E & T & V). run E.
+    eexists. split; [reflexivity|]. split.
+    + eapply trans_same_widen; [exact T|]. intros i [<-|[]]. unfold nids. apply in_or_app. right.
+      eapply items_ids_in; [exact In_n | apply node_ids_val; auto].
+    + intros i. destruct (Nat.eq_dec i (nv n)) as [->|Q]; [exact V|].
+      apply (t_val _ _ _ _ _ _ T); intros [R|[]]; congruence.
+  - exists w. split; [reflexivity|]. split; [apply trans_refl; auto | auto].
+Qed.
+
+Lemma nc_insert_all_self src : forall c p w, wfw w -> holds w (nids c) -> unique (ckind c) = true ->
+  NoDup (asel (ckind c) (nabs w c)) -> (forall n, In n src -> In n (citems c)) ->
+  exists w', nc_insert_all c p src w = Ok (c, w') /\
+             trans w w' (nids c) (nids c) (nblks c) (nblks c) /\ (forall i, val w' i = val w i).
+Proof.
+  induction src as [|n r IH]; intros c p w W H UQ ND S; cbn [nc_insert_all].
+  - exists w. split; [reflexivity|]. split; [apply trans_refl; auto | auto].
+  - destruct (In_nth_error _ _ (S n (or_introl eq_refl))) as (j & N).
+    destruct (nc_insert_found c p n j w W H UQ ND N) as (w1 & E1 & T1 & V1). run E1.
+    destruct (IH c (pos_next p) w1 ltac:(twf T1) (trans_holds _ _ _ _ _ _ T1 H) UQ) as (w' & E' & T' & V').
+    { rewrite (nabs_val_ext w w1 c V1). exact ND. }
+    { intros m I. apply S. right. exact I. }
+    exists w'. split; [exact E'|]. split; [eapply trans_trans; eauto|].
+    intros i. rewrite V', V1. reflexivity.
+Qed.
+
+Lemma holdsb_sub w A B : holdsb w B -> mle A B -> holdsb w A.
+Proof. unfold holdsb. intros H1 H2. msolve. Qed.
+
+(* List::insert(pos, itself): copy, insert the copy's items, destroy the copy *)
+Lemma nc_add_all_self_list c p w : wfw w -> holds w (nids c) -> holdsb w (nblks c) -> ckind c = KList ->
+  exists c' w', nc_add_all c p None w = Ok (c', w') /\
+     trans w w' (nids c) (nids c') (nblks c) (nblks c') /\ ckind c' = ckind c /\
+     nabs w' c' = match nabs w c with
+                  | [] => []
+                  | _ => spec_ins_all KList (nabs w c) p (spec_ins_all KList [] PBack (nabs w c))
+                  end.
+Proof.
+  intros W H Hb KL. unfold nc_add_all. rewrite KL.
+  destruct (citems c) as [|n0 r0] eqn:EI.
+  - exists c, w. split; [reflexivity|]. split; [apply trans_refl; auto|]. split; auto.
+    unfold nabs. rewrite EI. reflexivity.
+  - assert (NE : nabs w c <> []) by (unfold nabs; rewrite EI; discriminate).
+    assert (M : forall (Y : acont), match nabs w c with [] => [] | _ :: _ => Y end = Y).
+    { intros Y. destruct (nabs w c); [congruence | reflexivity]. }
+    destruct (nc_copy_new_ok c w W H) as (t & w1 & E1 & T1 & K1 & A1). run E1.
+    assert (H1 : holds w1 (nids c ++ items_ids (ckind c) (citems t))).
+    { rewrite <- K1. eapply holds_sub; [apply (trans_holds_frame _ _ _ _ _ _ (nids c) T1 H)|]. unfold nids. msolve. }
+    assert (Hb1 : holdsb w1 (nblks c)).
+    { eapply holdsb_sub with (B := nblks t ++ nblks c); [apply (trans_holdsb_frame _ _ _ _ _ _ (nblks c) T1 Hb) | msolve]. }
+    destruct (nc_insert_all_ok (citems t) c p w1 ltac:(twf T1) H1 Hb1) as (c1 & w2 & E2 & T2 & K2 & A2). run E2.
+    assert (Ht2 : holds w2 (nids t)).
+    { eapply (holds_keep _ _ _ _ _ _ (nids t) T2). eapply holds_sub; [apply (trans_holds_frame _ _ _ _ _ _ (nids c) T1 H) | msolve]. }
+    assert (Hbt2 : holdsb w2 (nblks t)).
+    { eapply holdsb_sub with (B := nblks c1 ++ nblks t); [|msolve].
+      apply (trans_holdsb_frame _ _ _ _ _ _ (nblks t) T2).
+      eapply holdsb_sub; [apply (trans_holdsb_frame _ _ _ _ _ _ (nblks c) T1 Hb) | msolve]. }
+    destruct (nc_dtor_ok t w2 ltac:(twf T2) Ht2 Hbt2) as (w3 & E3 & T3). run E3.
+    exists c1, w3. split; [reflexivity|].
+    assert (T12 : trans w w2 (nids c) (nids c1 ++ nids t) (nblks c) (nblks c1 ++ nblks t)).
+    { eapply (trans_seq (nids c) (nids t) (nblks c) (nblks t) _ _ _ _ _ _ _ _ _ _ _ _ _ _ _ T1 T2); msolve. }
+    split; [|split; [congruence|]].
+    + eapply (trans_seq [] (nids c1) [] (nblks c1) _ _ _ _ _ _ _ _ _ _ _ _ _ _ _ T12 T3); msolve.
+    + rewrite M.
+      assert (A3 : nabs w3 c1 = nabs w2 c1).
+      { unfold nabs. eapply nabs_keep; [exact T3 | | ].
+        - apply holds_nids_items. eapply holds_app_l. eapply trans_holds; [exact T12 | exact H].
+        - intros i I J.
+          pose proof (holds_nodup _ _ ltac:(twf T2) (trans_holds _ _ _ _ _ _ T12 H)) as ND.
+          eapply nodup_app_disj; [exact ND | | exact J]. unfold nids. apply in_or_app. right. exact I. }
+      rewrite A3, A2, KL. f_equal.
+      * unfold nabs. rewrite KL. eapply nabs_keep; [exact T1 | | tauto].
+        rewrite <- KL. apply holds_nids_items. exact H.
+      * transitivity (nabs w1 t); [unfold nabs; rewrite K1, KL; reflexivity | rewrite A1, KL; reflexivity].
+Qed.
+
+(* Map::insert(itself), HashSet::append(itself): every key is found *)
+Lemma nc_add_all_self_unique c p w : wfw w -> holds w (nids c) -> unique (ckind c) = true ->
+  ckind c <> KList -> NoDup (asel (ckind c) (nabs w c)) ->
+  exists w', nc_add_all c p None w = Ok (c, w') /\
+     trans w w' (nids c) (nids c) (nblks c) (nblks c) /\ nabs w' c = nabs w c.
+Proof.
+  intros W H UQ NL ND. unfold nc_add_all.
+  assert (E : (match ckind c with
+               | KList => match citems c with
+                          | [] => ret c
+                          | _ => t <- nc_copy_new c ;; c1 <- nc_insert_all c p (citems t) ;; nc_dtor t ;;; ret c1
+                          end
+               | _ => nc_insert_all c p (citems c)
+               end) = nc_insert_all c p (citems c)).
+  { destruct (ckind c); congruence. }
+  rewrite E.
+  destruct (nc_insert_all_self (citems c) c p w W H UQ ND (fun n I => I)) as (w' & E' & T' & V').
+  exists w'. split; [exact E'|]. split; [exact T'|]. apply nabs_val_ext. exact V'.
+Qed.
+
+Lemma nc_add_all_other c p y w : wfw w -> holds w (nids c ++ nids y) -> holdsb w (nblks c) -> ckind y = ckind c ->
+  exists c' w', nc_add_all c p (Some y) w = Ok (c', w') /\
+     trans w w' (nids c) (nids c') (nblks c) (nblks c') /\ ckind c' = ckind c /\
+     nabs w' c' = spec_ins_all (ckind c) (nabs w c) p (nabs w y).
+Proof.
+  intros W H Hb KY. unfold nc_add_all.
+  assert (H1 : holds w (nids c ++ items_ids (ckind c) (citems y))).
+  { rewrite <- KY. eapply holds_sub; [exact H|]. unfold nids. msolve. }
+  destruct (nc_insert_all_ok (citems y) c p w W H1 Hb) as (c' & w' & E & T & K & A).
+  exists c', w'. split; [exact E|]. split; [exact T|]. split; [exact K|].
+  rewrite A. unfold nabs. rewrite KY. reflexivity.
+Qed.
+
+(* ---- HashSet::remove(set) ---- *)
+Lemma nc_remove_keys_ok src : forall c w,
+  wfw w -> holds w (nids c ++ items_ids (ckind c) src) -> has_key (ckind c) = true ->
+  exists c' w', nc_remove_keys c src w = Ok (c', w') /\
+     trans w w' (nids c) (nids c') (nblks c) (nblks c') /\ ckind c' = ckind c /\
+     nabs w' c' = spec_rem_all (ckind c) (nabs w c) (map (abs_node (ckind c) w) src).
+Proof.
+  induction src as [|n r IH]; intros c w W H HK; cbn [nc_remove_keys map spec_rem_all].
+  - exists c, w. split; [reflexivity|]. split; [apply trans_refl; auto|]. auto.
+  - set (k := ckind c) in *.
+    pose proof (holds_app_l _ _ _ H) as Hc. pose proof (holds_app_r _ _ _ H) as Hs.
+    unfold items_ids in Hs. cbn [flat_map] in Hs. fold (items_ids k r) in Hs.
+    assert (Ik : In (nk n) (dom (heap w))).
+    { eapply holds_in; [exact Hs|]. apply in_or_app. left. apply node_ids_key. auto. }
+    destruct (nc_remove_key_ok c (nk n) w W Hc) as (c1 & w1 & E1 & T1 & K1 & A1); auto.
+    { fold k. rewrite HK. reflexivity. }
+    run E1.
+    assert (H1 : holds w1 (nids c1 ++ items_ids (ckind c1) r)).
+    { rewrite K1. fold k. eapply holds_sub; [apply (trans_holds_frame _ _ _ _ _ _ (node_ids k n ++ items_ids k r) T1 H)|]. msolve. }
+    destruct (IH c1 w1 ltac:(twf T1) H1) as (c' & w' & E' & T' & K' & A').
+    { rewrite K1. exact HK. }
+    exists c', w'. split; [exact E'|]. split; [|split; [unfold k; congruence|]].
+    + eapply trans_trans; eauto.
+    + rewrite A', K1, A1. fold k.
+      destruct (abs_node_oz k w n) as [OK _]. rewrite (OK HK).
+      f_equal. eapply nabs_keep; [exact T1 | eapply holds_sub; [exact Hs | msolve] |].
+      intros i I J. eapply (holds_disjoint _ _ _ _ W H); [|exact J].
+      unfold items_ids. cbn [flat_map]. apply in_or_app. right. exact I.
+Qed.
+
+(* s.remove(s): the walk removes the head item each time *)
+Lemma nc_remove_keys_self l : forall c w, citems c = l ->
+  wfw w -> holds w (nids c) -> has_key (ckind c) = true ->
+  exists c' w', nc_remove_keys c l w = Ok (c', w') /\
+     trans w w' (nids c) (nids c') (nblks c) (nblks c') /\ ckind c' = ckind c /\ citems c' = [].
+Proof.
+  induction l as [|n r IH]; intros c w EI W H HK; cbn [nc_remove_keys].
+  - exists c, w. split; [reflexivity|]. split; [apply trans_refl; auto|]. auto.
+  - pose proof (holds_nids_items _ _ H) as Hi.
+    assert (Ik : In (nk n) (dom (heap w))).
+    { eapply holds_in; [exact Hi|]. eapply items_ids_in; [rewrite EI; left; reflexivity | apply node_ids_key; auto]. }
+    assert (E0 : nc_remove_key c (nk n) w = nc_remove_at c 0 w).
+    { unfold nc_remove_key. run (rd_ok w (nk n) Ik).
+      assert (Lsel : forall i, In i (sel_ids (ckind c) (citems c)) -> In i (dom (heap w))).
+      { intros i J. eapply holds_in; [exact Hi|]. apply sel_ids_in; auto. rewrite HK. reflexivity. }
+      run (rd_list_ok w _ Lsel).
+      rewrite EI. unfold sel_ids. cbn [map find_idx]. rewrite HK, Z.eqb_refl. reflexivity. }
+    destruct (nc_remove_at_ok c 0 w W H) as (c1 & w1 & E1 & T1 & K1 & A1 & I1).
+    { rewrite EI. cbn. lia. }
+    rewrite <- E0 in E1. run E1.
+    rewrite EI in I1. cbn [remove_at] in I1.
+    destruct (IH c1 w1 I1 ltac:(twf T1) (trans_holds _ _ _ _ _ _ T1 H)) as (c' & w' & E' & T' & K' & I').
+    { rewrite K1. exact HK. }
+    exists c', w'. split; [exact E'|]. split; [eapply trans_trans; eauto|]. split; [congruence | exact I'].
 Qed.
